@@ -226,11 +226,15 @@ def handle (line : String) : P String := do
       let (o, args) := stratTwoSample (← pList pInt g) (← pList pRat r) st (← pAlt alt) (← pBool p1)
         (← pList3 pNat draws)
       pure (showST o ++ "|args=" ++ showList2 showRat args)
-  | ["strat2nan", alt, p1, g, r, ntreat, draws] => do
+  | ["strat2nan", alt, p1, g, r, ntreat, stat, draws] => do
       let nt ← pNat ntreat
+      let stf : List (Option Rat) → Option Rat ← match stat with
+        | "mean" => pure (nanMeanDiff nt)
+        | "t" => pure (nanT nt)
+        | _ => fail s!"strat2nan stat '{stat}'"
       let pOpt : String → P (Option Rat) := fun t => if t = "nan" then pure none else (do pure (some (← pRat t)))
       let showO : Option Rat → String := fun o => match o with | none => "nan" | some v => showRat v
-      let (o, args) := stratTwoSampleNan (← pList pInt g) (← pList pOpt r) (nanMeanDiff nt) (← pAlt alt) (← pBool p1)
+      let (o, args) := stratTwoSampleNan (← pList pInt g) (← pList pOpt r) stf (← pAlt alt) (← pBool p1)
         (← pList3 pNat draws)
       pure (s!"p={showRat o.p}|up={o.hitsUp}|dn={o.hitsDn}|obs={showO o.obs}|dist={" ".intercalate (o.dist.map showO)}"
         ++ "|args=" ++ showList2 showO args)
@@ -266,6 +270,9 @@ def handle (line : String) : P String := do
       | _ => pure "ValueError"
   | ["wyminp", alts, ts, tv] => do
       let (adj, raw) := wyMinP (← pList pRat ts) (← pList2 pRat tv) (← pList pBool alts)
+      pure s!"{showRats adj}|{showRats raw}"
+  | ["wymaxtl", alts, ts, tv] => do
+      let (adj, raw) := wyMaxTL (← pList pRat ts) (← pList2 pRat tv) (← pList pBool alts)
       pure s!"{showRats adj}|{showRats raw}"
   | ["wymaxt", two, ts, tv] => do
       let (adj, raw) := wyMaxT (← pList pRat ts) (← pList2 pRat tv) (← pBool two)
